@@ -288,6 +288,286 @@ pub open spec fn lp_string_text(bytes: Seq<u8>) -> Seq<char> { utf8_text(bytes.s
         },
 //@end
 
+// =====================================================================================================
+// CONNACK decoding (C03): the property section against the table of OASIS 3.2.2.3, written here from the standard
+// =====================================================================================================
+//@const gneiss-mqtt/src/mqtt/utils.rs PACKET_TYPE_CONNACK
+//@const gneiss-mqtt/src/mqtt/utils.rs PROPERTY_KEY_SESSION_EXPIRY_INTERVAL
+//@const gneiss-mqtt/src/mqtt/utils.rs PROPERTY_KEY_RECEIVE_MAXIMUM
+//@const gneiss-mqtt/src/mqtt/utils.rs PROPERTY_KEY_MAXIMUM_QOS
+//@const gneiss-mqtt/src/mqtt/utils.rs PROPERTY_KEY_RETAIN_AVAILABLE
+//@const gneiss-mqtt/src/mqtt/utils.rs PROPERTY_KEY_MAXIMUM_PACKET_SIZE
+//@const gneiss-mqtt/src/mqtt/utils.rs PROPERTY_KEY_ASSIGNED_CLIENT_IDENTIFIER
+//@const gneiss-mqtt/src/mqtt/utils.rs PROPERTY_KEY_TOPIC_ALIAS_MAXIMUM
+//@const gneiss-mqtt/src/mqtt/utils.rs PROPERTY_KEY_REASON_STRING
+//@const gneiss-mqtt/src/mqtt/utils.rs PROPERTY_KEY_USER_PROPERTY
+//@const gneiss-mqtt/src/mqtt/utils.rs PROPERTY_KEY_WILDCARD_SUBSCRIPTIONS_AVAILABLE
+//@const gneiss-mqtt/src/mqtt/utils.rs PROPERTY_KEY_SUBSCRIPTION_IDENTIFIERS_AVAILABLE
+//@const gneiss-mqtt/src/mqtt/utils.rs PROPERTY_KEY_SHARED_SUBSCRIPTIONS_AVAILABLE
+//@const gneiss-mqtt/src/mqtt/utils.rs PROPERTY_KEY_SERVER_KEEP_ALIVE
+//@const gneiss-mqtt/src/mqtt/utils.rs PROPERTY_KEY_RESPONSE_INFORMATION
+//@const gneiss-mqtt/src/mqtt/utils.rs PROPERTY_KEY_SERVER_REFERENCE
+//@const gneiss-mqtt/src/mqtt/utils.rs PROPERTY_KEY_AUTHENTICATION_METHOD
+//@const gneiss-mqtt/src/mqtt/utils.rs PROPERTY_KEY_AUTHENTICATION_DATA
+
+impl QualityOfService {
+//@fn gneiss-mqtt/src/mqtt/mod.rs try_from props=C03 impl={TryFrom<u8> for QualityOfService} as=try_from
+    ensures value <= 2 ==> (r matches Ok(q) && q as u8 == value), value > 2 ==> r is Err,
+//@end
+}
+
+// CONNACK reason codes (OASIS 3.2.2.2, table 3.1): name -> value, written from the standard
+pub open spec fn connect_reason_value(c: ConnectReasonCode) -> u8 {
+    match c {
+        ConnectReasonCode::Success => 0u8,
+        ConnectReasonCode::UnspecifiedError => 128u8,
+        ConnectReasonCode::MalformedPacket => 129u8,
+        ConnectReasonCode::ProtocolError => 130u8,
+        ConnectReasonCode::ImplementationSpecificError => 131u8,
+        ConnectReasonCode::UnsupportedProtocolVersion => 132u8,
+        ConnectReasonCode::ClientIdentifierNotValid => 133u8,
+        ConnectReasonCode::BadUsernameOrPassword => 134u8,
+        ConnectReasonCode::NotAuthorized => 135u8,
+        ConnectReasonCode::ServerUnavailable => 136u8,
+        ConnectReasonCode::ServerBusy => 137u8,
+        ConnectReasonCode::Banned => 138u8,
+        ConnectReasonCode::BadAuthenticationMethod => 140u8,
+        ConnectReasonCode::TopicNameInvalid => 144u8,
+        ConnectReasonCode::PacketTooLarge => 149u8,
+        ConnectReasonCode::QuotaExceeded => 151u8,
+        ConnectReasonCode::PayloadFormatInvalid => 153u8,
+        ConnectReasonCode::RetainNotSupported => 154u8,
+        ConnectReasonCode::QosNotSupported => 155u8,
+        ConnectReasonCode::UseAnotherServer => 156u8,
+        ConnectReasonCode::ServerMoved => 157u8,
+        ConnectReasonCode::ConnectionRateExceeded => 159u8,
+    }
+}
+pub open spec fn connect_reason_legal(v: u8) -> bool {
+    v == 0 || (128 <= v <= 138) || v == 140 || v == 144 || v == 149 || v == 151 || (153 <= v <= 157) || v == 159
+}
+impl ConnectReasonCode {
+//@fn gneiss-mqtt/src/mqtt/mod.rs try_from props=C03 impl={TryFrom<u8> for ConnectReasonCode} as=try_from
+    ensures connect_reason_legal(value) ==> (r matches Ok(c) && connect_reason_value(c) == value), !connect_reason_legal(value) ==> r is Err,
+//@end
+}
+
+// ---- MQTT 5 property sections, written from OASIS MQTT 5.0 section 2.2.2.2 (identifier -> data type); nothing here is repository code
+pub enum PropType { Byte, TwoByte, FourByte, Vbi, Str, Bin, StrPair, Unknown }
+pub open spec fn prop_type(id: u8) -> PropType {
+    if id == 0x01 || id == 0x17 || id == 0x19 || id == 0x24 || id == 0x25 || id == 0x28 || id == 0x29 || id == 0x2A { PropType::Byte }
+    else if id == 0x13 || id == 0x21 || id == 0x22 || id == 0x23 { PropType::TwoByte }
+    else if id == 0x02 || id == 0x11 || id == 0x18 || id == 0x27 { PropType::FourByte }
+    else if id == 0x0B { PropType::Vbi }
+    else if id == 0x03 || id == 0x08 || id == 0x12 || id == 0x15 || id == 0x1A || id == 0x1C || id == 0x1F { PropType::Str }
+    else if id == 0x09 || id == 0x16 { PropType::Bin }
+    else if id == 0x26 { PropType::StrPair }
+    else { PropType::Unknown }
+}
+// what a property section says: one value per identifier (a second occurrence is a protocol error), user properties in wire order
+pub struct PropBag {
+    pub bytes: Map<u8, u8>, pub u16s: Map<u8, u16>, pub u32s: Map<u8, u32>,
+    pub strs: Map<u8, Seq<char>>, pub bins: Map<u8, Seq<u8>>, pub users: Seq<(Seq<char>, Seq<char>)>,
+}
+// byte-valued properties are 0/1 flags, except Maximum QoS (0x24): the standard allows 0 and 1 there, this client also accepts 2
+// (over-acceptance noted in DESIGN.md 4, not a C03 violation)
+pub open spec fn byte_value_ok(id: u8, v: u8) -> bool { if id == 0x24 { v <= 2 } else { v <= 1 } }
+
+pub open spec fn parse_props(b: Seq<u8>, allowed: Set<u8>, bag: PropBag) -> Option<PropBag>
+    decreases b.len()
+{
+    if b.len() == 0 { Some(bag) } else {
+        let id = b[0];
+        let rest = b.subrange(1, b.len() as int);
+        if !allowed.contains(id) { None } else {
+            match prop_type(id) {
+                PropType::Byte => if rest.len() >= 1 && !bag.bytes.contains_key(id) && byte_value_ok(id, rest[0])
+                    { parse_props(rest.subrange(1, rest.len() as int), allowed, PropBag { bytes: bag.bytes.insert(id, rest[0]), ..bag }) } else { None },
+                PropType::TwoByte => if rest.len() >= 2 && !bag.u16s.contains_key(id)
+                    { parse_props(rest.subrange(2, rest.len() as int), allowed, PropBag { u16s: bag.u16s.insert(id, be16(rest) as u16), ..bag }) } else { None },
+                PropType::FourByte => if rest.len() >= 4 && !bag.u32s.contains_key(id)
+                    { parse_props(rest.subrange(4, rest.len() as int), allowed, PropBag { u32s: bag.u32s.insert(id, be32(rest) as u32), ..bag }) } else { None },
+                PropType::Str => if lp_string_ok(rest) && !bag.strs.contains_key(id)
+                    { parse_props(rest.subrange(2 + be16(rest), rest.len() as int), allowed, PropBag { strs: bag.strs.insert(id, lp_string_text(rest)), ..bag }) } else { None },
+                PropType::Bin => if rest.len() >= 2 && rest.len() >= 2 + be16(rest) && !bag.bins.contains_key(id)
+                    { parse_props(rest.subrange(2 + be16(rest), rest.len() as int), allowed, PropBag { bins: bag.bins.insert(id, rest.subrange(2, 2 + be16(rest))), ..bag }) } else { None },
+                PropType::StrPair => {
+                    let rest1 = rest.subrange(2 + be16(rest), rest.len() as int);
+                    if lp_string_ok(rest) && lp_string_ok(rest1)
+                        { parse_props(rest1.subrange(2 + be16(rest1), rest1.len() as int), allowed, PropBag { users: bag.users.push((lp_string_text(rest), lp_string_text(rest1))), ..bag }) } else { None }
+                },
+                _ => None,
+            }
+        }
+    }
+}
+
+pub open spec fn put<V>(m: Map<u8, V>, id: u8, o: Option<V>) -> Map<u8, V> { match o { Some(v) => m.insert(id, v), None => m } }
+pub open spec fn flag(o: Option<bool>) -> Option<u8> { match o { Some(b) => Some(if b { 1u8 } else { 0u8 }), None => None } }
+pub open spec fn qos_byte(o: Option<QualityOfService>) -> Option<u8> {
+    match o { Some(QualityOfService::AtMostOnce) => Some(0u8), Some(QualityOfService::AtLeastOnce) => Some(1u8), Some(QualityOfService::ExactlyOnce) => Some(2u8), None => None }
+}
+pub open spec fn text(o: Option<String>) -> Option<Seq<char>> { match o { Some(s) => Some(s@), None => None } }
+pub open spec fn blob(o: Option<Vec<u8>>) -> Option<Seq<u8>> { match o { Some(v) => Some(v@), None => None } }
+pub open spec fn user_seq(o: Option<Vec<UserProperty>>) -> Seq<(Seq<char>, Seq<char>)> {
+    match o { Some(v) => Seq::new(v@.len(), |i: int| (v@[i].name@, v@[i].value@)), None => Seq::empty() }
+}
+
+// CONNACK (OASIS 3.2.2.3): the identifiers a CONNACK may carry, and where this client keeps each value
+pub open spec fn connack_ids() -> Set<u8> {
+    set![0x11u8, 0x21u8, 0x24u8, 0x25u8, 0x27u8, 0x12u8, 0x22u8, 0x1Fu8, 0x26u8, 0x28u8, 0x29u8, 0x2Au8, 0x13u8, 0x1Au8, 0x1Cu8, 0x15u8, 0x16u8]
+}
+pub open spec fn connack_bag(p: ConnackPacket) -> PropBag {
+    PropBag {
+        bytes: put(put(put(put(put(Map::<u8, u8>::empty(), 0x24u8, qos_byte(p.maximum_qos)), 0x25u8, flag(p.retain_available)), 0x28u8, flag(p.wildcard_subscriptions_available)),
+                    0x29u8, flag(p.subscription_identifiers_available)), 0x2Au8, flag(p.shared_subscriptions_available)),
+        u16s: put(put(put(Map::<u8, u16>::empty(), 0x21u8, p.receive_maximum), 0x22u8, p.topic_alias_maximum), 0x13u8, p.server_keep_alive),
+        u32s: put(put(Map::<u8, u32>::empty(), 0x11u8, p.session_expiry_interval), 0x27u8, p.maximum_packet_size),
+        strs: put(put(put(put(put(Map::<u8, Seq<char>>::empty(), 0x12u8, text(p.assigned_client_identifier)), 0x1Fu8, text(p.reason_string)), 0x1Au8, text(p.response_information)),
+                    0x1Cu8, text(p.server_reference)), 0x15u8, text(p.authentication_method)),
+        bins: put(Map::<u8, Seq<u8>>::empty(), 0x16u8, blob(p.authentication_data)),
+        users: user_seq(p.user_properties),
+    }
+}
+pub open spec fn bag_eq(a: PropBag, b: PropBag) -> bool {
+    a.bytes =~= b.bytes && a.u16s =~= b.u16s && a.u32s =~= b.u32s && a.strs =~= b.strs && a.bins =~= b.bins && a.users =~= b.users
+}
+
+//@fn gneiss-mqtt/src/mqtt/connack.rs decode_connack_properties props=C03,C11
+    ensures
+        final(packet).session_present == old(packet).session_present, final(packet).reason_code == old(packet).reason_code,
+        // exactly the section the standard's tables describe: every legal section is decoded to its content, in any property order; an unknown or
+        // not-allowed identifier, a truncated value, a second occurrence of a non-repeatable property is an error
+        match parse_props(property_bytes@, connack_ids(), connack_bag(*old(packet))) {
+            Some(bag) => r is Ok && bag_eq(connack_bag(*final(packet)), bag),
+            None => r is Err,
+        },
+//@@loop 0
+        invariant
+            packet.session_present == old(packet).session_present, packet.reason_code == old(packet).reason_code,
+            parse_props(property_bytes@, connack_ids(), connack_bag(*old(packet))) == parse_props(mutable_property_bytes@, connack_ids(), connack_bag(*packet)),
+        decreases mutable_property_bytes@.len(),
+//@@bodyend_of_loop 0
+            proof {
+                let rest = b0.subrange(1, b0.len() as int);
+                let bag0 = connack_bag(pk0); let bag1 = connack_bag(*packet); let id = b0[0];
+                assert(rest_view == rest);
+                if id == 0x11u8 { let x = PropBag { u32s: bag0.u32s.insert(id, be32(rest) as u32), ..bag0 }; assert(bag_eq(bag1, x)); assert(bag1 == x); assert(mutable_property_bytes@ =~= rest.subrange(4, rest.len() as int)); }
+                if id == 0x27u8 { let x = PropBag { u32s: bag0.u32s.insert(id, be32(rest) as u32), ..bag0 }; assert(bag_eq(bag1, x)); assert(bag1 == x); assert(mutable_property_bytes@ =~= rest.subrange(4, rest.len() as int)); }
+                if id == 0x21u8 { let x = PropBag { u16s: bag0.u16s.insert(id, be16(rest) as u16), ..bag0 }; assert(bag_eq(bag1, x)); assert(bag1 == x); assert(mutable_property_bytes@ =~= rest.subrange(2, rest.len() as int)); }
+                if id == 0x22u8 { let x = PropBag { u16s: bag0.u16s.insert(id, be16(rest) as u16), ..bag0 }; assert(bag_eq(bag1, x)); assert(bag1 == x); assert(mutable_property_bytes@ =~= rest.subrange(2, rest.len() as int)); }
+                if id == 0x13u8 { let x = PropBag { u16s: bag0.u16s.insert(id, be16(rest) as u16), ..bag0 }; assert(bag_eq(bag1, x)); assert(bag1 == x); assert(mutable_property_bytes@ =~= rest.subrange(2, rest.len() as int)); }
+                if id == 0x25u8 { let x = PropBag { bytes: bag0.bytes.insert(id, rest[0]), ..bag0 }; assert(bag_eq(bag1, x)); assert(bag1 == x); assert(mutable_property_bytes@ =~= rest.subrange(1, rest.len() as int)); }
+                if id == 0x28u8 { let x = PropBag { bytes: bag0.bytes.insert(id, rest[0]), ..bag0 }; assert(bag_eq(bag1, x)); assert(bag1 == x); assert(mutable_property_bytes@ =~= rest.subrange(1, rest.len() as int)); }
+                if id == 0x29u8 { let x = PropBag { bytes: bag0.bytes.insert(id, rest[0]), ..bag0 }; assert(bag_eq(bag1, x)); assert(bag1 == x); assert(mutable_property_bytes@ =~= rest.subrange(1, rest.len() as int)); }
+                if id == 0x2Au8 { let x = PropBag { bytes: bag0.bytes.insert(id, rest[0]), ..bag0 }; assert(bag_eq(bag1, x)); assert(bag1 == x); assert(mutable_property_bytes@ =~= rest.subrange(1, rest.len() as int)); }
+                if id == 0x24u8 { let x = PropBag { bytes: bag0.bytes.insert(id, rest[0]), ..bag0 }; assert(bag_eq(bag1, x)); assert(bag1 == x); assert(mutable_property_bytes@ =~= rest.subrange(1, rest.len() as int)); }
+                if id == 0x12u8 { let x = PropBag { strs: bag0.strs.insert(id, lp_string_text(rest)), ..bag0 }; assert(bag_eq(bag1, x)); assert(bag1 == x); assert(mutable_property_bytes@ =~= rest.subrange(2 + be16(rest), rest.len() as int)); }
+                if id == 0x1Fu8 { let x = PropBag { strs: bag0.strs.insert(id, lp_string_text(rest)), ..bag0 }; assert(bag_eq(bag1, x)); assert(bag1 == x); assert(mutable_property_bytes@ =~= rest.subrange(2 + be16(rest), rest.len() as int)); }
+                if id == 0x1Au8 { let x = PropBag { strs: bag0.strs.insert(id, lp_string_text(rest)), ..bag0 }; assert(bag_eq(bag1, x)); assert(bag1 == x); assert(mutable_property_bytes@ =~= rest.subrange(2 + be16(rest), rest.len() as int)); }
+                if id == 0x1Cu8 { let x = PropBag { strs: bag0.strs.insert(id, lp_string_text(rest)), ..bag0 }; assert(bag_eq(bag1, x)); assert(bag1 == x); assert(mutable_property_bytes@ =~= rest.subrange(2 + be16(rest), rest.len() as int)); }
+                if id == 0x15u8 { let x = PropBag { strs: bag0.strs.insert(id, lp_string_text(rest)), ..bag0 }; assert(bag_eq(bag1, x)); assert(bag1 == x); assert(mutable_property_bytes@ =~= rest.subrange(2 + be16(rest), rest.len() as int)); }
+                if id == 0x16u8 { let x = PropBag { bins: bag0.bins.insert(id, rest.subrange(2, 2 + be16(rest))), ..bag0 }; assert(bag_eq(bag1, x)); assert(bag1 == x); assert(mutable_property_bytes@ =~= rest.subrange(2 + be16(rest), rest.len() as int)); }
+                if id == 0x26u8 {
+                    let rest1 = rest.subrange(2 + be16(rest), rest.len() as int);
+                    let x = PropBag { users: bag0.users.push((lp_string_text(rest), lp_string_text(rest1))), ..bag0 };
+                    assert(bag1.users =~= x.users); assert(bag_eq(bag1, x)); assert(bag1 == x);
+                    assert(mutable_property_bytes@ =~= rest1.subrange(2 + be16(rest1), rest1.len() as int));
+                }
+            }
+//@@at before "let property_key = mutable_property_bytes[0];"
+        let ghost b0 = mutable_property_bytes@;
+        let ghost pk0 = *packet;
+//@@at after "mutable_property_bytes = &mutable_property_bytes[1..];"
+        let ghost rest_view = mutable_property_bytes@;
+//@end
+
+
+// MQTT 3.1.1 CONNACK return codes (OASIS 3.1.1 table 3.1) and the MQTT 5 reason each is reported as
+pub open spec fn connack311_reason(v: u8) -> Option<ConnectReasonCode> {
+    if v == 0 { Some(ConnectReasonCode::Success) } else if v == 1 { Some(ConnectReasonCode::UnsupportedProtocolVersion) }
+    else if v == 2 { Some(ConnectReasonCode::ClientIdentifierNotValid) } else if v == 3 { Some(ConnectReasonCode::ServerUnavailable) }
+    else if v == 4 { Some(ConnectReasonCode::BadUsernameOrPassword) } else if v == 5 { Some(ConnectReasonCode::NotAuthorized) } else { None }
+}
+//@fn gneiss-mqtt/src/mqtt/mod.rs convert_311_encoding_to_connect_reason_code props=C03
+    ensures match connack311_reason(value) { Some(c) => r == Ok::<ConnectReasonCode, GneissError>(c), None => r is Err },
+//@end
+
+// Variable Byte Integer at the head of a byte string (OASIS 1.5.5): how many bytes it takes - at most four, the last one without the continuation bit
+pub open spec fn vbi_len(s: Seq<u8>) -> Option<int> {
+    if s.len() >= 1 && s[0] < 128 { Some(1int) }
+    else if s.len() >= 2 && s[0] >= 128 && s[1] < 128 { Some(2int) }
+    else if s.len() >= 3 && s[0] >= 128 && s[1] >= 128 && s[2] < 128 { Some(3int) }
+    else if s.len() >= 4 && s[0] >= 128 && s[1] >= 128 && s[2] >= 128 && s[3] < 128 { Some(4int) }
+    else { None }
+}
+pub proof fn lemma_vbi_len_char(s: Seq<u8>)
+    ensures
+        forall|n: int| 1 <= n <= 4 && n <= s.len() && s[n - 1] < 128 && (forall|j: int| 0 <= j < n - 1 ==> s[j] >= 128) ==> vbi_len(s) == Some(n),
+        (forall|j: int| 0 <= j < 4 && j < s.len() ==> s[j] >= 128) ==> vbi_len(s) is None,
+{
+    assert forall|n: int| 1 <= n <= 4 && n <= s.len() && s[n - 1] < 128 && (forall|j: int| 0 <= j < n - 1 ==> s[j] >= 128) implies vbi_len(s) == Some(n) by {
+        if n >= 2 { assert(s[0] >= 128); } if n >= 3 { assert(s[1] >= 128); } if n >= 4 { assert(s[2] >= 128); }
+    }
+}
+pub open spec fn empty_bag() -> PropBag {
+    PropBag { bytes: Map::empty(), u16s: Map::empty(), u32s: Map::empty(), strs: Map::empty(), bins: Map::empty(), users: Seq::empty() }
+}
+// MQTT 5 CONNACK (OASIS 3.2): fixed header 0x20; Connect Acknowledge Flags (only bit 0 may be set); reason code from table 3.1; a property
+// length that accounts for exactly the rest of the packet; the property section
+pub open spec fn connack5_spec(first_byte: u8, body: Seq<u8>) -> Option<(bool, u8, PropBag)> {
+    if first_byte != 0x20 || body.len() < 2 || body[0] > 1 || !connect_reason_legal(body[1]) { None } else {
+        let tail = body.subrange(2, body.len() as int);
+        match vbi_len(tail) {
+            None => None,
+            Some(n) => {
+                let props = tail.subrange(n, tail.len() as int);
+                if vli_val(tail, n as nat) != props.len() { None } else {
+                    match parse_props(props, connack_ids(), empty_bag()) { Some(bag) => Some((body[0] == 1, body[1], bag)), None => None }
+                }
+            }
+        }
+    }
+}
+
+//@fn gneiss-mqtt/src/mqtt/connack.rs decode_connack_packet5 props=C03,C11
+// `Box::as_mut()` is `&mut **self` (std source); Verus has no specification for the AsMut impl of Box (its `T: ?Sized` cannot be compared)
+//@@rewrite "box_packet.as_mut()" => "&mut *box_packet"
+    ensures
+        match connack5_spec(first_byte, packet_body@) {
+            Some((sp, rc, bag)) => r matches Ok(b) && (*b matches MqttPacket::Connack(p) && p.session_present == sp && connect_reason_value(p.reason_code) == rc && bag_eq(connack_bag(p), bag)),
+            None => r is Err,
+        },
+//@@at bodystart
+    proof { assert(2u8 << 4u8 == 32u8) by (bit_vector); assert(PACKET_TYPE_CONNACK == 2u8); }
+//@@at before "mutable_body = decode_vli_into_mutable(mutable_body, &mut properties_length)?;"
+        let ghost tail = mutable_body@;
+        proof {
+            assert(tail =~= packet_body@.subrange(2, packet_body@.len() as int));
+            lemma_vbi_len_char(tail);
+            assert(connack_bag(*packet) == empty_bag()) by { assert(bag_eq(connack_bag(*packet), empty_bag())); }
+        }
+//@@at after "mutable_body = decode_vli_into_mutable(mutable_body, &mut properties_length)?;"
+        proof {
+            let n = vbi_len(tail)->Some_0;
+            assert(vbi_len(tail) is Some);
+            assert(mutable_body@ =~= tail.subrange(n, tail.len() as int));
+            assert(properties_length == vli_val(tail, n as nat));
+        }
+//@end
+
+//@fn gneiss-mqtt/src/mqtt/connack.rs decode_connack_packet311 props=C03,C11
+//@@rewrite "box_packet.as_mut()" => "&mut *box_packet"
+    // MQTT 3.1.1 CONNACK (OASIS 3.1.1 section 3.2): fixed header 0x20, exactly two bytes: flags (only bit 0), return code 0..5; no properties
+    ensures
+        (first_byte == 0x20 && packet_body@.len() == 2 && packet_body@[0] <= 1 && connack311_reason(packet_body@[1]) is Some) ==>
+            (r matches Ok(b) && (*b matches MqttPacket::Connack(p) && p.session_present == (packet_body@[0] == 1) && Some(p.reason_code) == connack311_reason(packet_body@[1])
+                && bag_eq(connack_bag(p), empty_bag()))),
+        !(first_byte == 0x20 && packet_body@.len() == 2 && packet_body@[0] <= 1 && connack311_reason(packet_body@[1]) is Some) ==> r is Err,
+//@@at bodystart
+    proof { assert(2u8 << 4u8 == 32u8) by (bit_vector); assert(PACKET_TYPE_CONNACK == 2u8); }
+//@end
+
 pub proof fn lemma_pow128(n: nat)
     ensures n == 0 ==> pow128(n) == 1, n == 1 ==> pow128(n) == 128, n == 2 ==> pow128(n) == 16384, n == 3 ==> pow128(n) == 2097152, n == 4 ==> pow128(n) == 268435456,
 {
